@@ -267,6 +267,28 @@ theorem empi_cumulative (m : Nat) (data : List Int) (n1 n2 : Nat) (h : n1 ≤ n2
   conv => lhs; rw [this]
   exact countsFrom_append 0 m _ _
 
+/-- **C14.f' `empi_cumulative_out`** — cumulative consistency stated on the OUTPUT of `calc_empi_dist_sequence`: for any two
+returned entries `(n₁, e₁)`, `(n₂, e₂)` with `n₁ ≤ n₂`, `n₂·e₂ = n₁·e₁ + (count vector of the slice data[n₁:n₂])`. -/
+theorem empi_cumulative_out (mnum : Int) (data : List Int) (ns : List Int) (out : List (Int × List Rat))
+    (hpos : ∀ n ∈ ns, 0 < n) (h : calcEmpiDistSequence mnum data ns = .ok out)
+    (a b : Int × List Rat) (ha : a ∈ out) (hb : b ∈ out) (hab : a.1 ≤ b.1) :
+    b.2.map (fun x => x * (b.1 : Rat)) =
+      List.zipWith (· + ·) (a.2.map fun x => x * (a.1 : Rat))
+        ((countsOf mnum.toNat ((data.take b.1.toNat).drop a.1.toNat)).map fun (c : Nat) => ((c : Int) : Rat)) := by
+  have hout := empi_counts mnum data ns out hpos h
+  rw [hout] at ha hb
+  obtain ⟨n1, hn1, rfl⟩ := List.mem_map.1 ha
+  obtain ⟨n2, hn2, rfl⟩ := List.mem_map.1 hb
+  have h1 : (empiEntry mnum.toNat data n1).1 = n1 := rfl
+  have h2 : (empiEntry mnum.toNat data n2).1 = n2 := rfl
+  rw [h1, h2] at hab ⊢
+  rw [entry_times_n _ _ _ (hpos n1 hn1), entry_times_n _ _ _ (hpos n2 hn2),
+    empi_cumulative mnum.toNat data n1.toNat n2.toNat (by have := hpos n1 hn1; omega), map_cast_zipWith_add]
+
+
+example : calcEmpiDistSequence 3 [0, 1, 2, 2, 1] [2, 5] = .ok [(2, [1/2, 1/2, 0]), (5, [1/5, 2/5, 2/5])] ∧
+    countsOf 3 (([0, 1, 2, 2, 1] : List Int).take 5 |>.drop 2) = [0, 1, 2] := by decide +kernel
+
 /-- spec pins: strictly increasing sample sizes; the last requested size -/
 theorem increasing_def (a b : Int) (t : List Int) :
     (Increasing [] ↔ True) ∧ (Increasing [a] ↔ True) ∧ (Increasing (a :: b :: t) ↔ a < b ∧ Increasing (b :: t)) :=
@@ -689,5 +711,32 @@ example : (genDataE ctrPRNG ⟨0, [1]⟩ (.int (-1)) [1/2, 1/2] 2 (1/100)).1 = .
 example : (genDataE ctrPRNG ⟨0, [1]⟩ .other [1/2, 1/2] 2 (1/100)).1 = .error .notAStream := by decide +kernel
 example : (genDataE ctrPRNG ⟨0, [1]⟩ (.gen 0) [1/2, -1/10, 3/5] 2 (1/100)).1 = .error (.negativeEntry 1) := by decide +kernel
 example : (genDataE ctrPRNG ⟨0, [1]⟩ (.gen 0) [1/2, -1/1000, 501/1000] 2 (1/100)).1 = .ok [0, 2] := by decide +kernel
+
+
+/-! ## `QTomography.reset_seed` / `Experiment.reset_seed_data` (executed by driver op `rseed`) -/
+
+/-- **C14.o `reset_seed_replays`** — the replay mechanism of the global-state path: after `reset_seed()` on an object holding the
+seed `s`, after `reset_seed(s')` for ANY integer `s'` (zero included - fix b42e0b1), and again after any further `reset_seed()`,
+the next unseeded generation is a function of the seed alone: the data of the stream `reseed s`, whatever was drawn before. -/
+theorem reset_seed_replays {G : Type} (P : PRNG G) (reseed : Int → G) (t : TomoSeed G) (probs : List Rat) (n : Nat) (s s' : Int)
+    (hs : t.seedData = some s) :
+    (genData P (tomoResetSeed reseed t none).store .none probs n).map (·.1) =
+        some (dataOfUniforms probs (drawN P (reseed s) n).1) ∧
+    (tomoResetSeed reseed t (some s')).seedData = some s' ∧
+    (genData P (tomoResetSeed reseed t (some s')).store .none probs n).map (·.1) =
+        some (dataOfUniforms probs (drawN P (reseed s') n).1) ∧
+    (genData P (tomoResetSeed reseed (tomoResetSeed reseed t (some s')) none).store .none probs n).map (·.1) =
+        some (dataOfUniforms probs (drawN P (reseed s') n).1) := by
+  simp [tomoResetSeed, expResetSeedData, resetSeedData, hs, genData, toStream_none, genDataOn, Stream.get, Stream.put]
+
+/-- an object built without `seed_data` is not re-seeded by `reset_seed()` (`np.random.seed` is not called for `None`) -/
+theorem reset_seed_none_is_noop {G : Type} (reseed : Int → G) (t : TomoSeed G) (h : t.seedData = none) :
+    tomoResetSeed reseed t none = t := by
+  cases t; simp_all [tomoResetSeed, expResetSeedData, resetSeedData]
+
+/-- history on the counter PRNG: draw, rewind with `reset_seed()`, draw the same again; `reset_seed(0)` switches to seed 0 -/
+example : runResets ctrPRNG (fun s => s.toNat) [1/2, 1/2] ⟨some 1, ⟨1, []⟩⟩
+    [(none, 2), (some none, 0), (none, 2), (some (some 0), 0), (none, 2), (some none, 0), (none, 1)] =
+    some [[0, 1], [0, 1], [0, 0], [0]] := by decide +kernel
 
 end QM.C14
